@@ -35,10 +35,15 @@ def run(rep, facts, tier):
     check_raw_readers(rep, fx)
     dm = fx.need(DM)
     # ---------- R1
-    callers = sorted(fx.callers().get(DM, ()))
+    from .. import inline, stepfx
+    V = inline.View(fx)       # private helpers that no rule names are looked through (a `&mut self` step of an owning function)
+
+    def helper(fn):
+        return V.transparent(fn) and bool(fx.callers().get(fn))
+    callers = sorted(stepfx.callers_seen_through(fx, V, DM))
     rep.floor('C04.R1 callers of data_mut', len(callers), 2)
     for fn in callers:
-        f = fx.fns[fn]
+        f = V(fn)
         recv = f.local_ty(1) if f.argc >= 1 else '?'
         owned = recv == 'bitstr::Bitstr'
         # the data_mut receiver is (a borrow of) that owned self or of an owned local of type Bitstr
@@ -78,6 +83,8 @@ def run(rep, facts, tier):
             continue
         recv = f.local_ty(1)
         if recv in ('&bitstr::Bitstr', '&mut bitstr::Bitstr') and fn != DM:
+            if helper(fn) and f.j.get('vis') != 'pub':
+                continue      # a private helper is judged where it is used: the receiver chain is resolved in the caller's view
             n_ref += 1
             reach = fx.reachable_from([fn])
             ok = DM not in reach
@@ -110,7 +117,7 @@ def run(rep, facts, tier):
     # ---------- R2
     n_w = 0
     for fn in callers:
-        f = fx.fns[fn]
+        f = V(fn)
         dom = f.dominators()
         dm_calls = [bb for bb, t in f.calls() if callee_of(t) == DM]
         writes = []   # (bb, kind, at)
